@@ -712,6 +712,10 @@ func (i *Lifecycler) initRing(ctx context.Context) error {
 
 		instanceDesc, ok := ringDesc.Ingesters[i.ID]
 		if !ok {
+			// This function runs again if the CAS has to be retried: forget the state taken over from a ring
+			// entry seen by an earlier attempt, if that entry has been removed in the meantime.
+			i.setState(PENDING)
+
 			now := time.Now()
 			// The instance doesn't exist in the ring, so it's safe to set the registered timestamp as of now.
 			i.setRegisteredAt(now)
